@@ -25,14 +25,22 @@ How to use it for a module `m` that does `import threading` (and maybe `import t
         s.add_thread('c1', ...)
         result = s.run()                                # Result(schedule, steps, deadlock, ...)
 
-`threading_shim` exposes `Thread`, `RLock`, `Lock`, `Event`, `Condition`-free subset,
-`current_thread`, `get_ident`; `time_shim` exposes `sleep`, `time`, `monotonic` on a virtual clock
+`threading_shim` exposes `Thread` (start / is_alive / join), `RLock`, `Lock`, `Event`,
+`current_thread`, `get_ident` (anything else falls through to the real module); `time_shim` exposes `sleep`, `time`, `monotonic` on a virtual clock
 that advances only when nothing else can run (or, with `time_choices=True`, whenever the chooser
 picks the pseudo thread `'@time'`).  Threads created by the code under test through the shim get
 ids from `name_thread(thread_obj, target)` (default `t1, t2, …` in creation order).
 
 Blocked threads carry a predicate that is re-evaluated at every pick.  A lock acquire with a
-time-out is modelled as "always eventually acquired" unless `lock_timeouts=True`.
+time-out is modelled as "always eventually acquired" unless `lock_timeouts=True`.  A thread that
+is chosen while it stands at a blocking call whose condition does not hold simply parks (the
+step is recorded; in a model this is a stutter step) and is not runnable again until it does.
+
+Observation: `sched.on_pick = f` is called as `f(previous_thread)` whenever a step is complete
+(all threads parked, state stable); while it runs, tracing is suspended (`sched.quiet`), so it
+may call into the traced module (getters) freely.  `result.steps[i].label` is the position of the
+chosen thread BEFORE step i: `('line', qualname, line - first line of the function, line)`,
+`('thread-start',)`, or whatever was passed to `yield_point` / `block(label=…)`.
 
 Exploration helpers: `RandomChooser` (seeded, with a stay-probability), `ReplayChooser`,
 `explore_bounded(run_one, max_preemptions, …)` = systematic depth-first enumeration of all
